@@ -39,22 +39,22 @@ type c08Tuple struct {
 
 type c08Case struct {
 	// local side
-	LocalAS   uint32   `json:"local_as"`
-	PeerAS    uint32   `json:"peer_as"`   // what the peer really is
-	AcceptAny bool     `json:"accept_any"` // configure peer-as 0
-	Hold      int      `json:"hold"`       // configured hold (0 = default 90)
-	KAMode    int      `json:"ka_mode"`    // configured keepalive interval: 0 a third of the hold time (default), 1 one second, 2 half of it, 3 two thirds
-	NbrLocalAS uint32  `json:"nbr_local_as"` // per-neighbour local-as (0 = none): the AS this speaker presents to the peer
-	Fams      []c08Fam `json:"fams"`
+	LocalAS    uint32   `json:"local_as"`
+	PeerAS     uint32   `json:"peer_as"`      // what the peer really is
+	AcceptAny  bool     `json:"accept_any"`   // configure peer-as 0
+	Hold       int      `json:"hold"`         // configured hold (0 = default 90)
+	KAMode     int      `json:"ka_mode"`      // configured keepalive interval: 0 a third of the hold time (default), 1 one second, 2 half of it, 3 two thirds
+	NbrLocalAS uint32   `json:"nbr_local_as"` // per-neighbour local-as (0 = none): the AS this speaker presents to the peer
+	Fams       []c08Fam `json:"fams"`
 	// remote OPEN
-	RHold     int        `json:"rhold"`
-	RFams     []int      `json:"rfams"` // MP capabilities announced (indexes), may repeat; nil+NoMP => none
-	NoMP      bool       `json:"no_mp"`
+	RHold     int          `json:"rhold"`
+	RFams     []int        `json:"rfams"` // MP capabilities announced (indexes), may repeat; nil+NoMP => none
+	NoMP      bool         `json:"no_mp"`
 	RAddPath  [][]c08Tuple `json:"radd_path"` // several ADD-PATH capabilities, each a tuple list
-	RAS4      bool       `json:"ras4"`
-	RExt      bool       `json:"rext"`
-	RUnknown  int        `json:"runknown"` // number of unknown capabilities
-	SplitCaps bool       `json:"split_caps"` // one optional parameter per capability
+	RAS4      bool         `json:"ras4"`
+	RExt      bool         `json:"rext"`
+	RUnknown  int          `json:"runknown"`   // number of unknown capabilities
+	SplitCaps bool         `json:"split_caps"` // one optional parameter per capability
 	// an earlier session of the same neighbour with another OPEN: nothing of it may survive
 	Prev *c08Remote `json:"prev"`
 }
@@ -287,7 +287,7 @@ func c08LocalRoute(f bgp.Family, i int) (bgp.NLRI, []bgp.PathAttributeInterface)
 		mp, _ := bgp.NewPathAttributeMpReachNLRI(f, []bgp.PathNLRI{{NLRI: n}}, netip.MustParseAddr("2001:db8::1"))
 		return n, []bgp.PathAttributeInterface{origin, mp}
 	case bgp.RF_IPv4_VPN:
-		n, _ := bgp.NewLabeledVPNIPAddrPrefix(netip.PrefixFrom(netip.AddrFrom4([4]byte{10, 9, byte(i), 0}), 24), *bgp.NewMPLSLabelStack(uint32(100+i)), bgp.NewRouteDistinguisherTwoOctetAS(65000, 1))
+		n, _ := bgp.NewLabeledVPNIPAddrPrefix(netip.PrefixFrom(netip.AddrFrom4([4]byte{10, 9, byte(i), 0}), 24), *bgp.NewMPLSLabelStack(uint32(100 + i)), bgp.NewRouteDistinguisherTwoOctetAS(65000, 1))
 		mp, _ := bgp.NewPathAttributeMpReachNLRI(f, []bgp.PathNLRI{{NLRI: n}}, netip.MustParseAddr("192.0.2.1"))
 		return n, []bgp.PathAttributeInterface{origin, mp}
 	}
